@@ -348,6 +348,9 @@ static void scenario_values(void)
     for (int k = 0; k < 64; k++)
         for (int dl = -3; dl <= 3; dl++)
             for (int sg = 0; sg < 2; sg++) { uint64_t u = (1ULL << k) + (uint64_t) (int64_t) dl; one_value((int64_t) (sg ? (uint64_t) 0 - u : u), 0, false); }
+    { int64_t p10 = 1; for (int k = 0; k <= 18; p10 = k < 18 ? p10 * 10 : p10, k++) for (int dl = -1; dl <= 1; dl++) { one_value(p10 + dl, 0, false); one_value(-(p10 + dl), 0, false); } }
+    { static const uint8_t fills[] = { 0x01, 0x5a, 0x80, 0xff };
+      for (int f = 0; f < 4; f++) for (int mask = 1; mask < 256; mask += 3) { uint64_t u = 0; for (int b = 0; b < 8; b++) if (mask & (1 << b)) u |= (uint64_t) fills[f] << (8 * b); one_value((int64_t) u, 0, false); one_value(0, u, true); } }
     for (uint64_t top = 0; top < 65536; top += 97) { one_value(0, top << 48, true); one_value(0, (top << 48) | 0xffffffffffffULL, true); }
     for (int pos = 0; pos < 8; pos++) for (uint64_t v = 0; v < 256; v += 5) one_value(0, v << (8 * pos), true);
     /* non-minimal and boundary encodings through the parser */
